@@ -174,3 +174,33 @@ def max_repeat_of_group(pattern, group_name):
             if len(sub) == 1 and sub[0][0] in (MAX_REPEAT, MIN_REPEAT):
                 return sub[0][1][0], sub[0][1][1]
     return None
+
+
+def group_is_digits(pattern, key):
+    """group `key` (number or name) of the pattern matches only runs of decimal digits"""
+    p = parse(pattern)
+    gid = p.state.groupdict.get(key) if isinstance(key, str) else key
+    if gid is None:
+        return False
+    found = False
+    for op, av in walk(p):
+        if op == SUBPATTERN and av[0] == gid:
+            found = True
+            sub = list(av[3])
+            if sub and sub[0][0] == LITERAL and sub[0][1] == 45:
+                sub = sub[1:]  # leading '-' (negative timestamp): int() accepts it
+            elif sub and sub[0][0] == IN and list(sub[0][1]) == [(LITERAL, 45)]:
+                sub = sub[1:]
+            if not sub:
+                return False
+            for o, a in sub:
+                if o in (MAX_REPEAT, MIN_REPEAT):
+                    inner = list(a[2])
+                    if not (len(inner) == 1 and inner[0][0] == IN and is_digit_class(inner[0][1])):
+                        return False
+                elif o == IN:
+                    if not is_digit_class(a):
+                        return False
+                else:
+                    return False
+    return found
